@@ -1,3 +1,40 @@
 import Driver.NodeSim
+import ElaVerif.Model.Irr
+open ElaVerif.Irr Driver
 
-def main : IO Unit := Driver.run NodeSim.step NodeSim.blank
+/-!
+  C30 driver: the node protocol (NodeSim) plus the last-irreversible-height stream
+    lihnew <revertStart>                       fresh State
+    lihset <lih> <dposStart> <dposWork> <dpos> writes the fields
+    lihstep <height>                           tryUpdateLastIrreversibleHeight + History.Commit → "<lih> <dposStart>"
+    lihback <height>                           History.RollbackTo → "<lih> <dposStart>"
+-/
+structure S30 where
+  node : ElaVerif.Node.NState
+  rs : Nat
+  h : Hist
+
+def step30 (s : S30) : List String → S30 × String
+  | ["lihnew", rs] => match nat? rs with
+      | some rs => ({ s with rs := rs, h := { st := { lih := 0, dposStart := 0, dposWork := 0, dpos := true } } }, "ok")
+      | none => (s, "bad-op")
+  | ["lihset", l, d, w, m] => match nat? l, nat? d, nat? w, nat? m with
+      | some l, some d, some w, some m =>
+        ({ s with h := { s.h with st := { lih := l, dposStart := d, dposWork := w, dpos := m != 0 } } }, "ok")
+      | _, _, _, _ => (s, "bad-op")
+  | ["lihstep", ht] => match nat? ht with
+      | some ht =>
+        let h' := step s.rs s.h ht
+        ({ s with h := h' }, s!"{h'.st.lih} {h'.st.dposStart}")
+      | none => (s, "bad-op")
+  | ["lihback", ht] => match nat? ht with
+      | some ht =>
+        let h' := rollbackTo s.h ht
+        ({ s with h := h' }, s!"{h'.st.lih} {h'.st.dposStart}")
+      | none => (s, "bad-op")
+  | toks =>
+    let (n, out) := NodeSim.step s.node toks
+    ({ s with node := n }, out)
+
+def main : IO Unit :=
+  Driver.run step30 { node := NodeSim.blank, rs := 0, h := { st := { lih := 0, dposStart := 0, dposWork := 0, dpos := true } } }
